@@ -77,7 +77,7 @@ func TestC07_Fallback(t *testing.T) {
 			}
 		}
 		tr := true
-		opt := gen.Options(t, gen.OptSpec{N: len(cmds), BigLimit: true, FixFuzzy: &tr, Thresholds: []int{0, 0, -30, -100, 5, 40, 200}})
+		opt := gen.Options(t, gen.OptSpec{N: len(cmds), BigLimit: true, FixFuzzy: &tr, Thresholds: []int{0, 0, -30, -100, 5, 40, 200, math.MaxInt, math.MaxInt - 1, math.MaxInt - 99, math.MaxInt - 100, math.MinInt, math.MinInt + 100, 1 << 40}})
 		if rapid.Bool().Draw(t, "open-filters") {
 			opt.AllPlatforms, opt.PipelineOnly, opt.Platforms, opt.NoCrossPlatform = true, false, nil, false
 		}
